@@ -307,6 +307,26 @@ theorem none_inner_optional :
 theorem hasNoneOpt_position (pre post : List FieldDecl) : hasNoneOpt (.anyOf (pre ++ .noneF :: post)) = true := by
   simp [hasNoneOpt, isNoneF]
 
+/-! ### single-argument tuple forms -/
+
+/-- `t: tuple[int]`, `t: typing.Tuple[int]`, `t: Tuple[Integer]`, `t = Tuple(items=Integer)` and
+    `t: Tuple(items=Integer())` all declare the documented "tuple of any number of Integers": a Field class
+    given as the single `items` is instantiated (typedpy finding `tuple-single-class`, see known findings). -/
+theorem tuple_single_equiv :
+    let d : FieldDecl := .tupleOf (.integer {}) false
+    SameMeaning (.pep585 .tuple (.builtin .int)) (.call .tuple fInt)
+    ∧ elabField noRe tm false (annF (.pep585 .tuple (.builtin .int))) = .ok (.field d true none)
+    ∧ elabField noRe tm false (annF (.typingG .tuple (.builtin .int))) = .ok (.field d true none)
+    ∧ elabField noRe tm false (annF (.sub .tuple fInt)) = .ok (.field d true none)
+    ∧ elabField noRe tm false { name := "a", mode := .assign, ty := .call .tuple fInt } = .ok (.field d true none)
+    ∧ elabField noRe tm false (annF (.call .tuple (.finst .int))) = .ok (.field d true none)
+    ∧ fieldSupported noRe tm false (annF (.pep585 .tuple (.builtin .int))) = true
+    ∧ fieldSupported noRe tm false (annF (.call .tuple fInt)) = true
+    ∧ validate noRe d (.tuple [.int 1, .int 2]) = .ok (.tuple [.int 1, .int 2])
+    ∧ validate noRe d (.tuple [.str "a"]) = .error .typeErr :=
+  ⟨SameMeaning.coll .pep585 .call .tuple (SameMeaning.scalar .builtin .cls .int),
+   rfl, rfl, rfl, rfl, rfl, rfl, rfl, rfl, rfl⟩
+
 /-! ### non-vacuity -/
 
 /-- `a: Optional[list[dict[str, int]]]` (builtins / typing, under the future import),
